@@ -27,6 +27,18 @@ func init() {
 				}
 				return ""
 			}
+			if strings.HasPrefix(line, "meta.key") {
+				// C19 says that missing, wrongly sized and all-zero keys are REFUSED (by both directions), not which error names which
+				// defect, nor how the message reads: a refusal is compared as a refusal
+				gf, mf := strings.Fields(g + " -")[0], strings.Fields(m + " -")[0]
+				if strings.HasPrefix(g, "encrypt:") {
+					return "encryption and decryption apply different key rules"
+				}
+				if (gf == "ok") != (mf == "ok") {
+					return "go=" + gf + " model=" + mf
+				}
+				return ""
+			}
 			if g != m {
 				return "go=" + strings.Fields(g + " -")[0] + " model=" + strings.Fields(m + " -")[0]
 			}
@@ -80,12 +92,12 @@ func evalMeta(line string) (out string, rd string) {
 			}
 			return "other"
 		}
-		a, b := cls(err), cls(derr)
-		if a == "ok" && b == "other" { // valid key: decryption of garbage fails for another reason
+		a := cls(err)
+		if a == "ok" { // valid key: decryption of garbage then fails for another reason (or, were the key rule not applied, the same)
 			return "ok", rd
 		}
-		if a != b {
-			return "encrypt:" + a + " decrypt:" + b, rd
+		if derr == nil {
+			return "encrypt:" + a + " decrypt:ok", rd
 		}
 		return a, rd
 	case "meta.get":
